@@ -551,6 +551,31 @@ def views(chk, facts):
         chk.ob(rule, "authorizer", uses == ["policies"], "%s reads the policy set through %s (required: policies() only)" % (short(a.name), uses), where=a.where(), fn=a.name)
 
 
+def wrapper_tables(chk, facts):
+    """The API's policy set keeps two shadow tables beside the core set. When it is rebuilt from a core set (protobuf decode,
+    From<ast::PolicySet>, TPE's policy_set()), `templates` lists the core set's templates() — the ones with slots, not
+    all_templates(), which also holds the bodies of static policies — and `policies` lists its policies()."""
+    rule = "C08.VIEW"
+    f = get_fn(chk, facts, rule, "cedar_policy::api::PolicySet::from_ast")
+    if f is None:
+        return
+    L = shape.Labels(f, None, None, call_labels=lambda c, t: (["V:" + c.split("::")[-1]] if c.startswith("cedar_policy_core::ast::") and "PolicySet::" in c else None))
+    adt = facts.adts.get("cedar_policy::api::PolicySet")
+    aggs = [s_ for _, s_ in f.stmts() if s_[0] == "a" and s_[2][0] == "agg" and s_[2][1][0] == "adt" and str(s_[2][1][1]) == "cedar_policy::api::PolicySet"]
+    if not adt or len(aggs) != 1:
+        chk.lost(rule, "the PolicySet literal of api::PolicySet::from_ast")
+        return
+    names = [fl[0] for fl in adt["variants"][0]["fields"]]
+    want = {"templates": {"templates"}, "policies": {"policies"}}
+    for i, o in enumerate(aggs[0][2][2]):
+        nm = names[i] if i < len(names) else str(i)
+        if nm not in want:
+            continue
+        labs = {x[2:] for x in L.operand_labels(o) if x.startswith("V:")}
+        chk.ob(rule, "from_ast:" + nm, labs == want[nm], "api PolicySet::from_ast fills its `%s` table from the core set's %s (must be exactly %s())" % (nm, sorted(labs), sorted(want[nm])[0]),
+               where=f.where(aggs[0][3]), fn=f.name, key="%s:from_ast:%s" % (rule, nm), sample={"table": nm, "from": sorted(labs)})
+
+
 def run(chk, facts, tier):
     facts.load_crate("cedar_policy_core.lib")
     facts.load_crate("cedar_policy.lib")
@@ -572,3 +597,4 @@ def run(chk, facts, tier):
     equality(chk, facts)
     link_fields(chk, facts)
     views(chk, facts)
+    wrapper_tables(chk, facts)
